@@ -1,7 +1,658 @@
-//! C01 — not implemented yet.
-use vcore::Ctx;
+//! C01 — the emitted SystemVerilog behaves like the Veryl design, under every
+//! `[build] clock_type` × `reset_type` and every explicit clock / reset type.
+//!
+//! Per generated case: a `vdesign` design (vsv dialect) × stimulus × one
+//! configuration.  (a) analyze + emit with that `Metadata`, parse / elaborate
+//! the text with `vsv` and drive the raw pins the way the configuration
+//! prescribes; (b) veryl's own simulator built from the same analysis with
+//! the `Config` fields `cmd_test` derives from the metadata.  Oracle 1: every
+//! output equal after every cycle.  Oracle 2 (structural): every `always_ff`
+//! header and `if_reset` condition of the emitted text matches the table
+//! written from the documented meaning of the type keywords and settings.
 
-pub fn run(_ctx: &Ctx) {
-    println!("INCONCLUSIVE property=C01: check not implemented");
-    std::process::exit(2);
+use crate::common::{self, BuildErr};
+use serde_json::json;
+use std::collections::{BTreeMap, BTreeSet};
+use vcore::{CaseCfg, Ctx, Draw, Outcome, hash_str};
+use vdesign::{Analyzed, Design, GenCfg, Item, Stimulus, gen_design, gen_stimulus, print_design, reference_trace};
+use veryl_metadata::{ClockType, Metadata, ResetType};
+use veryl_simulator::Config;
+use vsv::ast as sva;
+use vsv::{Bit, Bv, Pins, Sim};
+
+// ----- configuration space ------------------------------------------------------
+
+#[derive(Clone, Copy, Debug, PartialEq, Eq)]
+pub enum ClockKind {
+    Abstract,
+    Posedge,
+    Negedge,
+}
+
+#[derive(Clone, Copy, Debug, PartialEq, Eq)]
+pub enum ResetKind {
+    Abstract,
+    AsyncHigh,
+    AsyncLow,
+    SyncHigh,
+    SyncLow,
+}
+
+#[derive(Clone, Copy, Debug)]
+pub struct Combo {
+    pub clock_type: ClockType,
+    pub reset_type: ResetType,
+    pub clock_kind: ClockKind,
+    pub reset_kind: ResetKind,
+}
+
+/// What the documentation says a configuration means
+/// (book, "Clock / Reset": `clock` takes its edge from `clock_type`,
+/// `clock_posedge` / `clock_negedge` fix it; `reset` takes polarity and
+/// synchronicity from `reset_type`, `reset_{async,sync}_{high,low}` fix both).
+#[derive(Clone, Copy, Debug, PartialEq, Eq)]
+pub struct Meaning {
+    pub clock_posedge: bool,
+    pub reset_high: bool,
+    pub reset_sync: bool,
+}
+
+impl Combo {
+    pub fn meaning(&self) -> Meaning {
+        let clock_posedge = match self.clock_kind {
+            ClockKind::Abstract => self.clock_type == ClockType::PosEdge,
+            ClockKind::Posedge => true,
+            ClockKind::Negedge => false,
+        };
+        let (reset_high, reset_sync) = match self.reset_kind {
+            ResetKind::Abstract => match self.reset_type {
+                ResetType::AsyncLow => (false, false),
+                ResetType::AsyncHigh => (true, false),
+                ResetType::SyncLow => (false, true),
+                ResetType::SyncHigh => (true, true),
+            },
+            ResetKind::AsyncHigh => (true, false),
+            ResetKind::AsyncLow => (false, false),
+            ResetKind::SyncHigh => (true, true),
+            ResetKind::SyncLow => (false, true),
+        };
+        Meaning {
+            clock_posedge,
+            reset_high,
+            reset_sync,
+        }
+    }
+    pub fn clock_kw(&self) -> &'static str {
+        match self.clock_kind {
+            ClockKind::Abstract => "clock",
+            ClockKind::Posedge => "clock_posedge",
+            ClockKind::Negedge => "clock_negedge",
+        }
+    }
+    pub fn reset_kw(&self) -> &'static str {
+        match self.reset_kind {
+            ResetKind::Abstract => "reset",
+            ResetKind::AsyncHigh => "reset_async_high",
+            ResetKind::AsyncLow => "reset_async_low",
+            ResetKind::SyncHigh => "reset_sync_high",
+            ResetKind::SyncLow => "reset_sync_low",
+        }
+    }
+    pub fn toml(&self) -> String {
+        format!(
+            "[build]\nclock_type = \"{}\"\nreset_type = \"{}\"\n",
+            match self.clock_type {
+                ClockType::PosEdge => "posedge",
+                ClockType::NegEdge => "negedge",
+            },
+            match self.reset_type {
+                ResetType::AsyncLow => "async_low",
+                ResetType::AsyncHigh => "async_high",
+                ResetType::SyncLow => "sync_low",
+                ResetType::SyncHigh => "sync_high",
+            }
+        )
+    }
+    pub fn label(&self) -> String {
+        format!(
+            "{}/{}",
+            match self.clock_type {
+                ClockType::PosEdge => "posedge",
+                ClockType::NegEdge => "negedge",
+            },
+            match self.reset_type {
+                ResetType::AsyncLow => "async_low",
+                ResetType::AsyncHigh => "async_high",
+                ResetType::SyncLow => "sync_low",
+                ResetType::SyncHigh => "sync_high",
+            }
+        )
+    }
+    pub fn apply(&self, md: &mut Metadata) {
+        md.build.clock_type = self.clock_type;
+        md.build.reset_type = self.reset_type;
+    }
+    /// The simulator `Config` exactly as `cmd_test.rs` derives it from the metadata.
+    pub fn sim_config(&self, md: &Metadata) -> Config {
+        Config {
+            use_jit: false,
+            use_4state: false,
+            abstract_reset_active_high: matches!(md.build.reset_type, ResetType::AsyncHigh | ResetType::SyncHigh),
+            abstract_reset_sync: matches!(md.build.reset_type, ResetType::SyncHigh | ResetType::SyncLow),
+            ..Config::default()
+        }
+    }
+}
+
+pub fn draw_combo(d: &mut Draw) -> Combo {
+    // simplest first: posedge / async_low / abstract types
+    let clock_type = *d.pick(&[ClockType::PosEdge, ClockType::NegEdge]);
+    let reset_type = *d.pick(&[ResetType::AsyncLow, ResetType::AsyncHigh, ResetType::SyncLow, ResetType::SyncHigh]);
+    let clock_kind = [ClockKind::Abstract, ClockKind::Posedge, ClockKind::Negedge][d.weighted(&[4, 1, 1])];
+    let reset_kind =
+        [ResetKind::Abstract, ResetKind::AsyncHigh, ResetKind::AsyncLow, ResetKind::SyncHigh, ResetKind::SyncLow][d.weighted(&[4, 1, 1, 1, 1])];
+    Combo {
+        clock_type,
+        reset_type,
+        clock_kind,
+        reset_kind,
+    }
+}
+
+/// The printer writes `name: input clock,` / `name: input reset,`; explicit
+/// kinds replace the keyword in every module of the design.
+pub fn retype(text: &str, c: &Combo) -> String {
+    text.replace(": input clock,", &format!(": input {},", c.clock_kw())).replace(": input reset,", &format!(": input {},", c.reset_kw()))
+}
+
+// ----- structural oracle ----------------------------------------------------------
+
+fn collect_ff<'a>(items: &'a [sva::Item], out: &mut Vec<(&'a Vec<(sva::Edge, sva::Expr)>, &'a sva::Stmt, u32)>) {
+    for it in items {
+        match it {
+            sva::Item::AlwaysFf { events, body, line } => out.push((events, body, *line)),
+            sva::Item::GenFor { items, .. } | sva::Item::GenBlock { items, .. } => collect_ff(items, out),
+            sva::Item::GenIf { then, els, .. } => {
+                collect_ff(then, out);
+                if let Some((_, e)) = els {
+                    collect_ff(e, out);
+                }
+            }
+            _ => {}
+        }
+    }
+}
+
+fn simple_name(e: &sva::Expr) -> Option<&str> {
+    match e {
+        sva::Expr::Name(p) if p.scope.is_empty() => Some(&p.name),
+        _ => None,
+    }
+}
+
+/// Every `always_ff` of every module: sensitivity list and `if_reset`
+/// condition against the table.  Returns (number checked, first deviation).
+pub fn structural(src: &sva::SourceText, design: &Design, m: &Meaning) -> (usize, Option<String>) {
+    let mut n = 0;
+    for module in &design.modules {
+        let Some(unit) = src.units.iter().find(|u| u.name == format!("prj_{}", module.name)) else {
+            continue;
+        };
+        let clk = module.clock().map(|c| module.decls[c].name.clone());
+        let rst = module.reset().map(|c| module.decls[c].name.clone());
+        let mut ffs = vec![];
+        collect_ff(&unit.items, &mut ffs);
+        let expected_ffs = module.items.iter().filter(|i| matches!(i, Item::AlwaysFf { .. })).count();
+        if ffs.len() != expected_ffs {
+            return (n, Some(format!("module {}: {} always_ff blocks emitted for {} in the source", module.name, ffs.len(), expected_ffs)));
+        }
+        for (events, body, line) in ffs {
+            n += 1;
+            let (Some(clk), Some(rst)) = (&clk, &rst) else {
+                return (n, Some(format!("module {} has an always_ff but no clock/reset port", module.name)));
+            };
+            let want_clk = if m.clock_posedge { sva::Edge::Pos } else { sva::Edge::Neg };
+            let ev_txt = |ev: &Vec<(sva::Edge, sva::Expr)>| {
+                ev.iter()
+                    .map(|(e, x)| format!("{} {}", match e {
+                        sva::Edge::Pos => "posedge",
+                        sva::Edge::Neg => "negedge",
+                        sva::Edge::Any => "edge",
+                    }, simple_name(x).unwrap_or("<expr>")))
+                    .collect::<Vec<_>>()
+                    .join(", ")
+            };
+            let mut want = vec![(want_clk, clk.as_str())];
+            if !m.reset_sync {
+                want.push((if m.reset_high { sva::Edge::Pos } else { sva::Edge::Neg }, rst.as_str()));
+            }
+            let got: Vec<(sva::Edge, Option<&str>)> = events.iter().map(|(e, x)| (*e, simple_name(x))).collect();
+            let same = got.len() == want.len() && got.iter().zip(&want).all(|(g, w)| g.0 == w.0 && g.1 == Some(w.1));
+            if !same {
+                let wtxt = want
+                    .iter()
+                    .map(|(e, n)| format!("{} {n}", if *e == sva::Edge::Pos { "posedge" } else { "negedge" }))
+                    .collect::<Vec<_>>()
+                    .join(", ");
+                return (n, Some(format!("line {line}: always_ff @({}) but the configuration means @({wtxt})", ev_txt(events))));
+            }
+            // first statement: `if (rst)` / `if (!rst)`
+            let first = match body {
+                sva::Stmt::Block { stmts, .. } => stmts.first(),
+                s => Some(s),
+            };
+            let Some(sva::Stmt::If { cond, .. }) = first else {
+                return (n, Some(format!("line {line}: always_ff does not start with the reset condition")));
+            };
+            let (neg, name) = match cond {
+                sva::Expr::Unary(sva::UnOp::LogNot, x) => (true, simple_name(x)),
+                x => (false, simple_name(x)),
+            };
+            if name != Some(rst.as_str()) || neg == m.reset_high {
+                return (
+                    n,
+                    Some(format!(
+                        "line {line}: reset condition is {}{} but the configuration means {}{rst}",
+                        if neg { "!" } else { "" },
+                        name.unwrap_or("<expr>"),
+                        if m.reset_high { "" } else { "!" }
+                    )),
+                );
+            }
+        }
+    }
+    (n, None)
+}
+
+// ----- dynamic oracle ----------------------------------------------------------------
+
+fn to_bv(v: &num_bigint::BigUint, w: usize) -> Bv {
+    Bv::from_biguint(v, w, false)
+}
+
+fn junk_of(v: &num_bigint::BigUint, w: usize) -> Bv {
+    to_bv(v, w).not()
+}
+
+/// Drive the emitted text with `stim`; one row of outputs per step.
+pub fn run_sv(sim: &mut Sim, pins: &Pins, stim: &Stimulus) -> Result<Vec<Vec<Bv>>, vsv::Unsupported> {
+    let zero: Vec<(String, Bv)> = stim.inputs.iter().map(|p| (p.name.clone(), Bv::zeros(p.width, false))).collect();
+    sim.tb_init(pins, &zero)?;
+    let mut rows = vec![];
+    for st in &stim.steps {
+        let ins: Vec<(String, Bv)> = stim.inputs.iter().zip(&st.values).map(|(p, v)| (p.name.clone(), to_bv(v, p.width))).collect();
+        let junk: Vec<(String, Bv)> = stim.inputs.iter().zip(&st.values).map(|(p, v)| (p.name.clone(), junk_of(v, p.width))).collect();
+        sim.tb_cycle(pins, &junk, &ins, st.reset)?;
+        let mut row = vec![];
+        for o in &stim.outputs {
+            let Some(v) = sim.get(&o.name) else {
+                return Err(vsv::Unsupported::new(format!("emitted top module has no port {}", o.name)));
+            };
+            row.push(v);
+        }
+        rows.push(row);
+    }
+    Ok(rows)
+}
+
+fn design_stats(design: &Design) -> (usize, usize) {
+    // (always_ff blocks, operators) over all modules
+    fn ops_expr(e: &vdesign::Expr) -> usize {
+        use vdesign::Expr::*;
+        match e {
+            Un(_, a) => 1 + ops_expr(a),
+            Bin(_, a, b) => 1 + ops_expr(a) + ops_expr(b),
+            If(c, a, b) => 1 + ops_expr(c) + ops_expr(a) + ops_expr(b),
+            Case(s, arms, d) => 1 + ops_expr(s) + arms.iter().map(|a| ops_expr(&a.1)).sum::<usize>() + ops_expr(d),
+            Switch(arms, d) => 1 + arms.iter().map(|a| ops_expr(&a.1) + a.0.iter().map(ops_expr).sum::<usize>()).sum::<usize>() + ops_expr(d),
+            Concat(v) => 1 + v.iter().map(|x| ops_expr(&x.0)).sum::<usize>(),
+            Cast(a, _) | Signed(a) | Unsigned(a) | Clog2(a) => 1 + ops_expr(a),
+            Inside(a, _, _) => 1 + ops_expr(a),
+            Call(_, args) => 1 + args.iter().map(ops_expr).sum::<usize>(),
+            _ => 0,
+        }
+    }
+    fn ops_stmts(v: &[vdesign::Stmt]) -> usize {
+        v.iter()
+            .map(|s| match s {
+                vdesign::Stmt::Assign { rhs, .. } | vdesign::Stmt::AssignConcat { rhs, .. } => ops_expr(rhs),
+                vdesign::Stmt::If { cond, then, els } => ops_expr(cond) + ops_stmts(then) + ops_stmts(els),
+                vdesign::Stmt::Case { sel, arms, default } => {
+                    ops_expr(sel) + arms.iter().map(|a| ops_stmts(&a.1)).sum::<usize>() + default.as_ref().map(|d| ops_stmts(d)).unwrap_or(0)
+                }
+                vdesign::Stmt::Switch { arms, default } => {
+                    arms.iter().map(|a| ops_stmts(&a.1) + a.0.iter().map(ops_expr).sum::<usize>()).sum::<usize>()
+                        + default.as_ref().map(|d| ops_stmts(d)).unwrap_or(0)
+                }
+                vdesign::Stmt::For { body, .. } => ops_stmts(body),
+                vdesign::Stmt::Return(e) => ops_expr(e),
+                _ => 0,
+            })
+            .sum()
+    }
+    let mut ff = 0;
+    let mut ops = 0;
+    for m in &design.modules {
+        for it in &m.items {
+            match it {
+                Item::AlwaysFf { reset, body, .. } => {
+                    ff += 1;
+                    ops += ops_stmts(reset) + ops_stmts(body);
+                }
+                Item::Assign { rhs, .. } | Item::Let { rhs, .. } => ops += ops_expr(rhs),
+                Item::AlwaysComb(b) => ops += ops_stmts(b),
+                Item::Inst { .. } => {}
+            }
+        }
+        for f in &m.funcs {
+            ops += ops_stmts(&f.body);
+        }
+    }
+    (ff, ops)
+}
+
+pub fn gen_cfg(ctx: &Ctx) -> GenCfg {
+    GenCfg {
+        max_width: if ctx.is_quick() { 80 } else { 200 },
+        // x would be compared against a 2-state simulator: keep divisors / indices guarded
+        unguarded_per_mille: 0,
+        display: false,
+        ..GenCfg::default()
+    }
+}
+
+fn hexrow(row: &[Bv]) -> Vec<String> {
+    row.iter().map(|v| v.to_string()).collect()
+}
+
+pub fn one_case(d: &mut Draw, cfg: &GenCfg, cycles: usize, stats: &Stats) -> Outcome {
+    let g = gen_design(d, cfg);
+    let design = &g.design;
+    let combo = draw_combo(d);
+    let meaning = combo.meaning();
+    let text = retype(&print_design(design), &combo);
+    let stim = gen_stimulus(d, design, cycles);
+    let mut md = common::project_metadata();
+    combo.apply(&mut md);
+
+    let built = match common::build(&text, &md) {
+        Ok(b) => b,
+        Err(BuildErr::Parse(e)) => return Outcome::skip(format!("generated design does not parse: {}", e.lines().next().unwrap_or(""))),
+        Err(BuildErr::Analyze(e)) => {
+            let first = e.first().cloned().unwrap_or_default();
+            let code: String = first.split_whitespace().take(4).collect::<Vec<_>>().join(" ");
+            return Outcome::skip(format!("generated design rejected by the analyzer: {code}"));
+        }
+    };
+    let input = |extra: serde_json::Value| {
+        json!({
+            "veryl": text,
+            "veryl_toml": combo.toml(),
+            "clock_kind": combo.clock_kw(),
+            "reset_kind": combo.reset_kw(),
+            "sv": built.sv,
+            "stimulus": stim.steps.iter().map(|s| json!({"reset": s.reset, "inputs": stim.inputs.iter().zip(&s.values).map(|(p, v)| format!("{}={}'h{:x}", p.name, p.width, v)).collect::<Vec<_>>()})).collect::<Vec<_>>(),
+            "detail": extra,
+        })
+    };
+
+    // ---- the emitted text: parse (also the structural oracle's input)
+    let parsed = match vsv::parse::parse(&built.sv) {
+        Ok(p) => p,
+        Err(u) => {
+            stats.unsupported(&u);
+            return Outcome::skip(format!("vsv unsupported (parse): {}", u.class()));
+        }
+    };
+    let (n_ff_checked, dev) = structural(&parsed, design, &meaning);
+    if let Some(dev) = dev {
+        let sig = if dev.contains("reset condition") {
+            "structural/reset-condition"
+        } else if dev.contains("always_ff @(") {
+            "structural/sensitivity-list"
+        } else {
+            "structural/shape"
+        };
+        return Outcome::fail(sig, format!("{dev}\nconfiguration {} with `{}` / `{}`", combo.label(), combo.clock_kw(), combo.reset_kw()), input(json!({})));
+    }
+
+    // ---- (a) vsv on the emitted text
+    let srcs = [parsed];
+    let mut scalar_select = false;
+    let mut sim = match Sim::from_parsed(&srcs, "prj_Top") {
+        Ok(s) => s,
+        Err(u) if u.reason.contains("select of a scalar") => {
+            // The emitter copies `v[0]`, `v[0:0]`, `v[0+:1]` of a 1-bit `logic v`
+            // verbatim; a scalar has no range in IEEE 1800 and standard tools
+            // reject the select.  Known finding, shown at a low rate; otherwise
+            // the text is read with the select meaning `[0:0]` so that the
+            // search goes on.
+            scalar_select = true;
+            if d.chance(1, 60) {
+                return Outcome::fail(
+                    "emitted-sv/select-of-scalar",
+                    format!("the emitted text selects from a scalar, which IEEE 1800 does not allow ({})", u.reason),
+                    input(json!({})),
+                );
+            }
+            match Sim::from_parsed_opts(&srcs, "prj_Top", true) {
+                Ok(s) => s,
+                Err(u) => {
+                    stats.unsupported(&u);
+                    return Outcome::skip(format!("vsv unsupported (elaborate): {}", u.class()));
+                }
+            }
+        }
+        Err(u) => {
+            stats.unsupported(&u);
+            return Outcome::skip(format!("vsv unsupported (elaborate): {}", u.class()));
+        }
+    };
+    let pins = Pins {
+        clock: stim.clock.clone().map(|c| (c, meaning.clock_posedge)),
+        reset: stim.reset.clone().map(|r| (r, meaning.reset_high)),
+    };
+    let sv_rows = match run_sv(&mut sim, &pins, &stim) {
+        Ok(r) => r,
+        Err(u) => {
+            stats.unsupported(&u);
+            return Outcome::skip(format!("vsv unsupported (run): {}", u.class()));
+        }
+    };
+
+    // ---- (b) veryl's simulator on the same analysis
+    let analyzed = Analyzed {
+        ir: built.ir,
+        warnings: built.warnings,
+    };
+    let config = combo.sim_config(&md);
+    let vt = match std::panic::catch_unwind(std::panic::AssertUnwindSafe(|| analyzed.run("Top", &config, &stim))) {
+        Ok(Ok(t)) => t,
+        Ok(Err(e)) => {
+            let first = e.lines().next().unwrap_or("").to_string();
+            return Outcome::skip(format!("veryl simulator cannot build the design: {}", first.split_whitespace().take(6).collect::<Vec<_>>().join(" ")));
+        }
+        Err(_) => return Outcome::skip("veryl simulator panicked (C11 / C02 domain)"),
+    };
+
+    // ---- compare
+    let mut x_bits = 0u64;
+    let mut compared = 0u64;
+    let mut distinct: Vec<BTreeSet<String>> = vec![BTreeSet::new(); stim.outputs.len()];
+    let mut mismatch: Option<(usize, usize)> = None;
+    for (si, (srow, vrow)) in sv_rows.iter().zip(&vt.steps).enumerate() {
+        for (oi, (s, v)) in srow.iter().zip(vrow).enumerate() {
+            let vb = to_bv(&v.value, stim.outputs[oi].width);
+            if s.width() != vb.width() {
+                return Outcome::fail(
+                    "port-width",
+                    format!("output {} is {} bits wide in the emitted module, {} in the design", stim.outputs[oi].name, s.width(), vb.width()),
+                    input(json!({})),
+                );
+            }
+            if !s.has_xz() {
+                distinct[oi].insert(s.to_string());
+            }
+            for k in 0..s.width() {
+                match s.bit(k) {
+                    Bit::X | Bit::Z => x_bits += 1,
+                    b => {
+                        compared += 1;
+                        if b != vb.bit(k) && mismatch.is_none() {
+                            mismatch = Some((si, oi));
+                        }
+                    }
+                }
+            }
+        }
+    }
+    if let Some((si, oi)) = mismatch {
+        // third opinion: the design generator's own reference evaluator
+        let rt = reference_trace(design, &stim);
+        let r = &rt.steps[si][oi];
+        let s = &sv_rows[si][oi];
+        let v = &vt.steps[si][oi];
+        let w = stim.outputs[oi].width;
+        let ref_bv = to_bv(&r.v, w);
+        let veryl_bv = to_bv(&v.value, w);
+        let agree = if r.x {
+            "ref-unknown"
+        } else if ref_bv.bits() == veryl_bv.bits() {
+            "ref=veryl-sim"
+        } else if ref_bv.bits() == s.bits() {
+            "ref=sv"
+        } else {
+            "all-differ"
+        };
+        let sig = format!("trace/{agree}");
+        let msg = format!(
+            "output {} after step {si}: emitted SV (vsv) {} , veryl simulator {}'h{:x}, reference evaluator {}\nconfiguration {} with `{}` / `{}`",
+            stim.outputs[oi].name,
+            s,
+            w,
+            v.value,
+            if r.x { "unknown".to_string() } else { format!("{w}'h{:x}", r.v) },
+            combo.label(),
+            combo.clock_kw(),
+            combo.reset_kw()
+        );
+        return Outcome::fail(
+            sig,
+            msg,
+            input(json!({
+                "sv_trace": sv_rows.iter().map(|r| hexrow(r)).collect::<Vec<_>>(),
+                "veryl_trace": vt.steps.iter().map(|r| r.iter().map(|s| format!("{:x}", s.value)).collect::<Vec<_>>()).collect::<Vec<_>>(),
+                "outputs": stim.outputs.iter().map(|o| o.name.clone()).collect::<Vec<_>>(),
+            })),
+        );
+    }
+
+    // ---- classes / non-triviality
+    let (n_ff, n_ops) = design_stats(design);
+    let lively = distinct.iter().any(|s| s.len() >= 3);
+    let nontrivial = n_ff >= 1 && n_ops >= 2 && lively;
+    let mut classes: Vec<String> = vec![
+        format!("cfg:{}", combo.label()),
+        format!("clock_kind:{}", combo.clock_kw()),
+        format!("reset_kind:{}", combo.reset_kw()),
+        format!("means:{}+{}{}", if meaning.clock_posedge { "posedge" } else { "negedge" }, if meaning.reset_sync { "sync" } else { "async" }, if meaning.reset_high { "_high" } else { "_low" }),
+        format!("ff_blocks:{}", match n_ff {
+            0 => "0",
+            1 => "1",
+            2..=3 => "2-3",
+            _ => "4+",
+        }),
+        format!("always_ff_checked:{}", if n_ff_checked > 0 { "yes" } else { "no" }),
+    ];
+    if x_bits > 0 {
+        classes.push("sv_has_x_bits".into());
+    }
+    if scalar_select {
+        classes.push("excluded_finding:select-of-scalar(read as [0:0])".into());
+    }
+    if design.modules.len() > 1 {
+        classes.push("hierarchy".into());
+    }
+    if stim.steps.iter().skip(2).any(|s| s.reset) {
+        classes.push("midrun_reset".into());
+    }
+    for c in &g.classes {
+        if c.starts_with("item:") || c.starts_with("stmt:") || c.starts_with("feat:") {
+            classes.push(c.clone());
+        }
+    }
+    stats.add_compared(compared, x_bits);
+    let sample = format!("// {} clock={} reset={}\n{}", combo.label(), combo.clock_kw(), combo.reset_kw(), text);
+    Outcome::pass(hash_str(&sample), nontrivial, classes, sample)
+}
+
+#[derive(Default)]
+pub struct Stats {
+    inner: std::sync::Mutex<StatsInner>,
+}
+
+#[derive(Default)]
+struct StatsInner {
+    unsupported: BTreeMap<String, u64>,
+    compared_bits: u64,
+    x_bits: u64,
+}
+
+impl Stats {
+    fn unsupported(&self, u: &vsv::Unsupported) {
+        *self.inner.lock().unwrap().unsupported.entry(u.class()).or_default() += 1;
+    }
+    fn add_compared(&self, c: u64, x: u64) {
+        let mut g = self.inner.lock().unwrap();
+        g.compared_bits += c;
+        g.x_bits += x;
+    }
+}
+
+/// The 94 golden files of the emitter's own test suite: how many the front end reads.
+fn golden_coverage(ctx: &Ctx) {
+    let dir = format!("{}/testcases/sv", vcore::util::repo_root());
+    let mut total = 0;
+    let mut ok = 0;
+    let mut reasons: BTreeMap<String, u64> = BTreeMap::new();
+    if let Ok(rd) = std::fs::read_dir(&dir) {
+        let mut files: Vec<_> = rd.flatten().map(|e| e.path()).filter(|p| p.extension().is_some_and(|x| x == "sv")).collect();
+        files.sort();
+        for f in files {
+            let Ok(text) = std::fs::read_to_string(&f) else { continue };
+            total += 1;
+            match vsv::parse::parse(&text) {
+                Ok(_) => ok += 1,
+                Err(u) => *reasons.entry(u.class()).or_default() += 1,
+            }
+        }
+    }
+    ctx.note("golden_sv_files", json!(total));
+    ctx.note("golden_sv_files_parsed", json!(ok));
+    ctx.note("golden_sv_unsupported", json!(reasons));
+}
+
+pub fn run(ctx: &Ctx) {
+    let n = ctx.scale(400, 20_000);
+    let cycles = if ctx.is_quick() { 24 } else { 100 };
+    let cfg = gen_cfg(ctx);
+    let stats = std::sync::Arc::new(Stats::default());
+    golden_coverage(ctx);
+    {
+        let stats = stats.clone();
+        ctx.run("design-config", CaseCfg::cases(n).choices(12_000).stack_mb(16), move |d: &mut Draw| one_case(d, &cfg, cycles, &stats));
+    }
+    {
+        let g = stats.inner.lock().unwrap();
+        ctx.note("vsv_unsupported", json!(g.unsupported));
+        ctx.note("compared_bits", json!(g.compared_bits));
+        ctx.note("sv_x_bits_not_compared", json!(g.x_bits));
+    }
+    ctx.assume("vsv (this harness' IEEE 1800 simulator built on vbv) is the \"standard SystemVerilog simulator\": no external one exists in the sandbox");
+    ctx.assume("bits that are x/z in the SystemVerilog simulation are not compared with the 2-state veryl simulator");
+    ctx.assume("the reset is held across at least one active clock edge (the simulator API has no reset pulse between edges)");
+    ctx.finish(
+        "translation_validation",
+        "vdesign designs (vsv dialect) x stimulus x clock_type x reset_type x explicit clock/reset kinds; non-trivial = >= 1 always_ff, >= 2 operators, some output takes >= 3 distinct fully known values",
+    );
 }
